@@ -121,7 +121,7 @@ pub fn capability_set(capability: Option<Capability>) -> Component {
     let default_capability = capability.unwrap_or(Capability{ cap_type: CapabilitySetType::CapstypeGeneral, message: component![]});
     component![
         "capabilitySetType" => U16::LE(default_capability.cap_type as u16),
-        "lengthCapability" => DynOption::new(U16::LE(default_capability.message.length() as u16 + 4), |length| MessageOption::Size("capabilitySet".to_string(), length.inner() as usize - 4)),
+        "lengthCapability" => DynOption::new(U16::LE(default_capability.message.length() as u16 + 4), |length| MessageOption::Size("capabilitySet".to_string(), (length.inner() as usize).saturating_sub(4))),
         "capabilitySet" => to_vec(&default_capability.message)
     ]
 }
